@@ -11,6 +11,8 @@ Leg R: coding / coefficient matrices, names, drop field, format, spans_intercept
        Order (MC_ContrastsOrder): polynomial scores in every order of writing (row i = polynomial of score i), and data
        arriving in a categorical carrier whose own category order is any arrangement of any subset of the nominated levels
        (the nominated list decides); the design errors "sorted-scores" / "trust-carrier" are refuted by TLC on the same families.
+       Reuse (MC_ContrastsReuse): a state machine - ONE contrasts object used with one level list after the other (other levels, other lengths, the
+       same levels in another order); every use must be the coding of its own list; the design error "memo-position" is refuted by TLC.
 """
 from __future__ import annotations
 
@@ -362,8 +364,73 @@ def replay_carrier(case):
     return bad, cnt
 
 
+def replay_reuse(case):
+    """ONE contrasts object used with one level list after the other (MC_ContrastsReuse: other levels, other lengths, the same levels in another
+    order): every use is the coding of ITS list - reference level by label, names, drop field, coefficient matrix, encoded data - whatever the object
+    was used with before.  The whole history is replayed on the same object and every use is compared (dense, sparse, ContrastsState, 3 outputs)."""
+    import pandas
+    from formulaic.transforms import contrasts as K
+    from formulaic.transforms import encode_contrasts
+    from formulaic.model_spec import ModelSpec
+
+    o, bad, cnt = case["o"], [], 0
+    if not case["hist"]:
+        return bad, cnt
+    U = max(max(lv) for lv in case["hist"])
+    for lname in ("strings", "ints-with-zero"):
+        lab = labelings(max(U, 3))[lname]
+        if o["name"] in ("treatment", "sas"):       # the reference level is named by LABEL here, not by position in one list
+            cls = K.TreatmentContrasts if o["name"] == "treatment" else K.SASContrasts
+            k = cls(base=lab[o["base"] - 1]) if o["base"] else cls()
+        else:
+            k = make(o, lab)
+        for step, u in enumerate(case["uses"]):
+            n, levels = u["n"], [lab[i - 1] for i in u["lv"]]
+            C = fl(u["coding"]) if n > 1 else numpy.zeros((n, 0))
+            I = fl(u["interp"])
+            red, full = (fl(u["reduced"]) if n > 1 else numpy.zeros((n + 1, 0))), fl(u["full"])
+            base = {"contrast": o, "n": n, "labeling": lname,
+                    "data": f"use {step + 1} of one object: levels {levels} after {[[lab[i - 1] for i in lv] for lv in case['hist'][:step]]}"}
+
+            def chk(what, ok, obs=None, exp=None):
+                if not ok:
+                    bad.append({**base, "why": what + " (reused contrasts object)", "observed": str(obs)[:300], "expected": str(exp)[:300]})
+
+            try:
+                cnt += 1
+                cm = k.get_coding_matrix(levels, reduced_rank=True)
+                chk("coding matrix (dense)", close(cm.values, C), cm.values.tolist(), C.tolist())
+                chk("coding matrix (sparse)", close(dense(k.get_coding_matrix(levels, reduced_rank=True, sparse=True)), C))
+                chk("full coding is the identity", close(k.get_coding_matrix(levels, reduced_rank=False).values, numpy.eye(n)))
+                co = k.get_coefficient_matrix(levels, reduced_rank=True)
+                chk("coefficient matrix (dense)", close(co.values, I), co.values.tolist(), I.tolist())
+                chk("coefficient matrix (sparse)", close(dense(k.get_coefficient_matrix(levels, reduced_rank=True, sparse=True)), I))
+                chk("coefficient matrix inverts [1|coding]", close(co.values @ numpy.hstack([numpy.ones((n, 1)), cm.values.reshape(n, -1)]), numpy.eye(n)))
+                names = [levels[j - 1] for j in u["collevels"]]
+                chk("coding column names", list(k.get_coding_column_names(levels, reduced_rank=True)) == names, k.get_coding_column_names(levels, reduced_rank=True), names)
+                chk("drop field", k.get_drop_field(levels, reduced_rank=False) == levels[u["drop"] - 1], k.get_drop_field(levels, reduced_rank=False), levels[u["drop"] - 1])
+                st = K.ContrastsState(k, levels)
+                chk("ContrastsState coding", close(st.get_coding_matrix().values, C))
+                chk("ContrastsState coefficient", close(st.get_coefficient_matrix().values, I))
+                data = [levels[l - 1] if l > 0 else None for l in u["li"]]
+                for output in ("pandas", "numpy", "sparse"):
+                    for reduced, exp in ((True, red), (False, full)):
+                        cnt += 1
+                        with warnings.catch_warnings():
+                            warnings.simplefilter("ignore")
+                            enc = encode_contrasts(pandas.Series(data, dtype=object), contrasts=k, levels=levels, reduced_rank=reduced, output=output,
+                                                   _spec=ModelSpec(formula=[], output=output))
+                        arr = dense(enc) if output == "sparse" else numpy.asarray(enc, dtype=float)
+                        chk(f"encoded values ({output}, reduced={reduced})", close(arr.reshape(exp.shape) if arr.size == exp.size else arr, exp), arr.tolist(), exp.tolist())
+                        if output == "pandas" and reduced:
+                            chk("encoded column names", list(enc.__formulaic_metadata__.column_names) == names, list(enc.__formulaic_metadata__.column_names), names)
+            except Exception as e:  # noqa
+                bad.append({**base, "why": "exception (reused contrasts object)", "observed": type(e).__name__ + ": " + str(e)[:150]})
+    return bad, cnt
+
+
 def replay_case(case):
-    return {"matrix": replay_matrix, "poly": replay_poly, "encode": replay_encode, "custom": replay_custom, "carrier": replay_carrier}[case["kind"]](case)
+    return {"matrix": replay_matrix, "poly": replay_poly, "encode": replay_encode, "custom": replay_custom, "carrier": replay_carrier, "reuse": replay_reuse}[case["kind"]](case)
 
 
 def order_cases(ctx: Ctx):
@@ -389,12 +456,36 @@ def order_cases(ctx: Ctx):
     return cases
 
 
+def reuse_cases(ctx: Ctx):
+    """MC_ContrastsReuse: one object, a history of level lists; the design error "memo-position" must be refuted"""
+    out = workdir("c11") / "reuse.ndjson"
+    out.unlink(missing_ok=True)
+    cfg = f'SPECIFICATION Spec\nCONSTANTS\n  MaxU = 3\n  MaxLen = {2 if ctx.quick else 3}\n  Emit = TRUE\n  Variant = "code"\n'
+    r = run_tlc("MC_ContrastsReuse", cfg + "INVARIANT ReuseLaws\nINVARIANT EmitCase\n", tag="c11r", env={"OUT_FILE": str(out)}, timeout=3000)
+    if r.violated:
+        ctx.model_violation(r, "MC_ContrastsReuse")
+    ctx.add_tlc(r, "every use of one contrasts object with one level list after the other: the reference row / dropped column is the one of the named label "
+                   "(default: first / last of THAT list), columns carry the other labels in list order, [1|C].Interp = I at the size of that list + emission")
+    v = run_tlc("MC_ContrastsReuse", cfg.replace('"code"', '"memo-position"').replace("Emit = TRUE", "Emit = FALSE").replace("MaxLen = 3", "MaxLen = 2") + "INVARIANT ReuseLaws\n",
+                tag="c11r", timeout=3000)
+    if "ReuseLaws" not in v.violated:
+        raise MachineryError("MC_ContrastsReuse: the design error 'memo-position' does not violate ReuseLaws - the family is vacuous")
+    ctx.notes["contrast_reuse_design_errors_refuted"] = ["memo-position (position of the reference level kept on the object from its first use)"]
+    cases = read_emitted(out)
+    out.unlink()
+    if len(cases) != r.distinct:
+        raise MachineryError(f"emission incomplete: {len(cases)} of {r.distinct}")
+    return cases
+
+
 def run(ctx: Ctx) -> None:
     ctx.rule = ("matrices: n = 1..MaxN x {treatment with every base, SAS, sum, Helmert x reverse x scale, difference x direction} x 3 labelings; polynomial: "
                 "n = 2..5 with default and non-default scores; encoding: n = 1..3 x every option x every data vector of length <= 3 over levels + "
                 "{null/unseen} x 2 labelings x 3 outputs x reduced/full, through Contrasts.apply on numpy / pandas / sparse indicator matrices, and through model_matrix on pandas frames and Arrow tables; "
                 "order: n = 2..4 (thorough 5) x every score set x every order of writing; n = 1..3 x every option x every arrangement of every non-empty subset of the levels as "
-                "the categories of a categorical carrier x 2 code vectors (every category and a null; descending with a repeat) x 2 labelings x 3 carriers x 3 outputs x reduced/full, and through model_matrix; non-trivial = n >= 3")
+                "the categories of a categorical carrier x 2 code vectors (every category and a null; descending with a repeat) x 2 labelings x 3 carriers x 3 outputs x reduced/full, and through model_matrix; "
+                "reuse: every object (treatment / SAS with every label of a 3-label universe or none as reference, every other option) x every history of <= 2 (thorough 3) level lists "
+                "(every arrangement of every non-empty subset of the labels holding the reference label; for label-blind codings every length) replayed on ONE object x 2 labelings, every use compared; non-trivial = n >= 3")
     ctx.trusted = ["sqrt taken by the harness for the polynomial normalisation", "float comparison at 1e-10 relative", "TLC", "Rat.tla (TLC reports integer overflow)"]
     out = workdir("c11") / "cases.ndjson"
     out.unlink(missing_ok=True)
@@ -409,12 +500,13 @@ def run(ctx: Ctx) -> None:
     if len(cases) != r.distinct:
         raise MachineryError(f"emission incomplete: {len(cases)} of {r.distinct}")
     cases += order_cases(ctx)
+    cases += reuse_cases(ctx)
     res = pmap("harness.props.c11", "replay_case", cases, chunk=20)
     for c, (bad, n) in zip(cases, res):
         ctx.traces += n
         ctx.evaluations += n
         if c["n"] >= 3:
-            ctx.nontrivial.add(jhash([c["kind"], c["n"], c.get("o"), c.get("li"), c.get("scores")] + ([c["own"], c["codes"]] if c["kind"] == "carrier" else [])))
+            ctx.nontrivial.add(jhash([c["kind"], c["n"], c.get("o"), c.get("li"), c.get("scores")] + ([c["own"], c["codes"]] if c["kind"] == "carrier" else []) + ([c["hist"]] if c["kind"] == "reuse" else [])))
         for b in bad:
             ctx.violation({k: b.get(k) for k in ("contrast", "n", "labeling", "data", "output", "reduced", "scores", "variant")} | {"why": b["why"]}, b, kind="replay")
     for c in [c for c in cases if c["kind"] == "matrix" and c["n"] == 4 and c["o"]["name"] == "helmert" and c["o"]["scale"] and c["o"]["reverse"]][:1]:
